@@ -35,7 +35,11 @@ def run(ck):
                'an unknown mode, confidences incl. unstated, validity windows around the evaluation instants, '
                'retracted/superseded), 3-4 recording orders x 6 query variants each; 3 hand-written scenarios '
                '(unattributed claims, worked bridge) and the first 2 (quick) / 8 (thorough) random scenarios cut to 3..5 '
-               'assertions are recorded in ALL permutations')
+               'assertions are recorded in ALL permutations; for the first recording order of every scenario FOR TIME is '
+               'also asked 1 ms before / at / 1 ms after every validity boundary and at the enclosing whole seconds, each '
+               'instant in up to 9 RFC 3339 spellings (canonical, no fraction, +00:00, +08:00, -05:00, +05:30, -12:00, '
+               'microseconds, lower case): all spellings must give the identical answer, equal to the oracle and the model '
+               'at the canonical instant')
     ck.translate(only=['gen_policy'])
     ck.coq(['Belief/Props.v'], ['Belief', 'gen'], model_targets=['Belief/Run.vo'])
     ck.trust('IEEE-754: f64::total_cmp is an antisymmetric, transitive total order on bit patterns '
@@ -53,6 +57,10 @@ def run(ck):
               '(its comment: "its own group rather than joining a nameless one") is not reachable through KML and all '
               'unattributed claims of a side form one group; the oracle, the model rows (actor key "lit:null") and the '
               'generated fact unattributed_is_anonymous = false follow what the engine does')
+    ck.trust('on stored-form timestamps (fixed-width UTC YYYY-MM-DDTHH:MM:SS.mmmZ, years 0000-9999) bytewise order is '
+             'chronological order (the crate tests it as lexicographic_order_is_chronological_order); the model compares '
+             'time strings bytewise as the code does, the check verifies that every string it is given has that form, and '
+             'C20_gen_projection_time_is_normalized pins that the engine hands the projection the normalised instant')
     ck.assume('rows reach the projection already decoded; time strings compare bytewise as in the code',
               'hook anda_cognitive_nexus::projection::verif (cfg anda_verif) forwards to the private aggregate/classify')
     binary = ck.cargo('h_nexus')
@@ -126,9 +134,10 @@ def e2e(ck, binary, quick):
     ck.cov['e2e_distribution'] = {k: summary[k] for k in (
         'scenarios', 'nexus_instances', 'projections', 'statuses', 'excluded_reasons', 'policies', 'with_rivals',
         'bridging', 'ledgers_in_id_order', 'features', 'all_permutation_scenarios', 'all_permutation_orders',
-        'two_unattributed_on_one_side')}
+        'two_unattributed_on_one_side', 'for_time_spelling_probes', 'for_time_spelled_instants')}
     for f in summary['failures']:
-        cls = 'e2e-order-dependence' if 'recording order' in f['what'] else 'e2e-oracle-mismatch'
+        cls = ('e2e-order-dependence' if 'recording order' in f['what'] else
+               'e2e-spelling-dependence' if 'e2e spelling' in f['what'] else 'e2e-oracle-mismatch')
         ck.violation(cls, f['what'], True, {'failing_input': f})
     ck.ob('end-to-end (KML writes, KQL BELIEF): every recording order gives the same answer and it equals the '
           'independent reading (eligibility, components, maxima, score, classification, ledgers) on %d projections '
@@ -158,6 +167,11 @@ def e2e(ck, binary, quick):
     ck.ob('model project = implementation end-to-end on %d projections (status, score bits, group counts, '
           'supporting/opposing/uncertain/excluded ledgers as sets)' % len(cases), not bad and len(cases) > 0,
           'correspondence', detail)
+    canon = ck.eval_cases(IMPORTS, 'ecase * eobs', 'e2e_times_canonical', cases, label='e2e_times')
+    ck.ob('every evaluation instant and validity bound given to the model on %d projections is in the stored form '
+          'YYYY-MM-DDTHH:MM:SS.mmmZ (where text order is chronological order)' % len(cases),
+          all(g is True for g in canon) and len(cases) > 0, 'correspondence',
+          json.dumps(next((model_rows[i]['case'] for i, g in enumerate(canon) if g is not True), ''))[:800])
     good = ck.eval_cases(IMPORTS, 'ecase * eobs', 'e2e_good', cases, label='e2e_good')
     ck.ob('premise of C20_aggregate_perm_float holds on all %d end-to-end projections' % len(cases),
           all(g is True for g in good) and len(cases) > 0, 'correspondence',
